@@ -285,7 +285,8 @@ def add_or_replace_by_membership(ctx, rule):
                 return out
             for a_blk, r_blk, add_when in ((node.body, node.orelse, True), (node.orelse, node.body, False)):
                 adds, reps = first_args(a_blk, 'op_add'), first_args(r_blk, 'op_replace')
-                common = [k for k in adds if k in reps]
+                # this If must be the one that separates the two: no replace of K on the add side, no add of K on the replace side
+                common = [k for k in adds if k in reps and k not in first_args(a_blk, 'op_replace') and k not in first_args(r_blk, 'op_add')]
                 if not common:
                     continue
                 k = common[0]
